@@ -46,6 +46,10 @@ ViewsVerdict(e, post) ==
              e.obs.views[p][i] # Reps(post, p, e.obs.names[i]) THEN "byname_view_disagrees"
   ELSE IF \E p \in Parents : \E i \in 1..Len(e.obs.names) :
              e.obs.vlens[p][i] # Len(Reps(post, p, e.obs.names[i])) THEN "byname_len_disagrees"
+  ELSE IF "contains" \in DOMAIN e.obs /\ \E i \in 1..Len(e.obs.contains) : ~e.obs.contains[i][1] \/ ~e.obs.contains[i][2]
+       THEN "listed_child_not_contained"
+  ELSE IF "stale" \in DOMAIN e.obs /\ \E i \in 1..Len(e.obs.stale) : e.obs.stale[i][1] \/ e.obs.stale[i][2]
+       THEN "removed_child_still_contained"
   ELSE IF \E i \in 1..Len(e.obs.par) : e.obs.par[i][2] # ParentOf(post, e.obs.par[i][1]) THEN "parent_pointer"
   ELSE IF \E i \in 1..Len(e.obs.lvl) : ~e.obs.lvl[i][2] THEN "mixed_level_or_version"
   ELSE "ok"
